@@ -252,9 +252,11 @@ def ocaml_build():
     """Extract/Extract.vo writes coq/extracted/*.ml(i) (Separate Extraction); compile them with the
     hand-written drivers of ocaml/ into build/ocaml/replay"""
     os.makedirs(os.path.join(COQ, "extracted"), exist_ok=True)
-    ok, txt, cmd = coq_make(["Extract/Extract.vo"])
-    if not ok:
-        return False, txt
+    targets = sorted("Extract/" + f[:-2] + ".vo" for f in os.listdir(os.path.join(COQ, "Extract")) if f.endswith(".v"))
+    for t in targets:       # one at a time: they write overlapping files into coq/extracted
+        ok, txt, cmd = coq_make([t])
+        if not ok:
+            return False, txt
     with Lock():
         ext = os.path.join(COQ, "extracted")
         names = set()
@@ -277,7 +279,8 @@ def ocaml_build():
         rc, order = run(["ocamlfind", "ocamldep", "-sort"] + sorted(names), cwd=OCAML, timeout=120)
         if rc != 0:
             return False, order
-        rc, txt = run(["ocamlfind", "ocamlopt", "-O3", "-unboxed-types"][:2] + ["-inline", "50", "-w", "-a", "-o", "replay"] + order.split(),
+        order = [f for f in order.split() if f != "replay.ml"] + ["replay.ml"]   # main last: mode modules register first
+        rc, txt = run(["ocamlfind", "ocamlopt", "-inline", "50", "-w", "-a", "-o", "replay"] + order,
                       cwd=OCAML, timeout=900)
         if rc != 0:
             return False, txt
